@@ -2042,7 +2042,7 @@ fn main() {
     }
     let threads = vcore::ncores().max(2);
     // wall-clock caps (the box is shared): cases beyond the cap are counted and reported, not judged
-    let cap_s = args.tier.pick(280.0, 900.0);
+    let cap_s = args.tier.pick(280.0, 900.0) * vcore::budget_scale();
     let budget_s = 1100.0;
     let results = vcore::par_for(small.len(), threads, |i| {
         if t0.elapsed().as_secs_f64() > cap_s { None } else { Some(run_case(&small[i])) }
